@@ -622,6 +622,8 @@ impl Message<PartitionSyncResponse> for PartitionReplicatorActor {
 
                     let tx_id = *commit.transaction_id();
                     let confirmation_count = commit.confirmation_count();
+                    // The commit must land at the sequence it has on the node it was copied from
+                    let first_partition_sequence = first.partition_sequence;
                     let tx = Transaction::new(
                         first.partition_key,
                         first.partition_id,
@@ -642,7 +644,10 @@ impl Message<PartitionSyncResponse> for PartitionReplicatorActor {
                     )
                     .unwrap()
                     .with_transaction_id(tx_id)
-                    .with_confirmation_count(confirmation_count);
+                    .with_confirmation_count(confirmation_count)
+                    .expected_partition_sequence(ExpectedVersion::from_next_version(
+                        first_partition_sequence,
+                    ));
                     match self.write_transaction(tx).await {
                         Ok(append) => {
                             debug!(
